@@ -7,7 +7,7 @@ import numpy as np
 from .. import core, findlib
 from .. import gen_replace_c05 as G
 
-RULE = ("structures: periodic cells (orthorhombic, triclinic with + and − tilts, arbitrarily rotated) with 1–3 planted, "
+RULE = ("[ordinary streams] structures: periodic cells (orthorhombic, triclinic with + and − tilts, arbitrarily rotated) with 1–3 planted, "
         "perturbed (≤ atol/8; in ~45 % of the cases a non-default tolerance 0.1 / 0.2 / 0.01 with copies distorted by up to "
         "0.6·atol, for 0.01 also beyond it — every occurrence an independent search with the SAME tolerance reports must be "
         "the set the replacement works on) copies of a search pattern in random / axis-aligned poses, origins random, face-hugging or "
@@ -19,11 +19,16 @@ RULE = ("structures: periodic cells (orthorhombic, triclinic with + and − tilt
         "π−eps, π, π+eps about axes perpendicular to it); ~3 % use a straight 10 Å 3-atom pattern next to a BENT group (middle "
         "atom 6–11·atol off the axis, distances within 0.7·atol) that is not an occurrence; ~7 % of the replacement patterns have whole-number coordinates and are CONSTRUCTED from "
         "plain ints (first search atom at a non-integer place); every 15th structure is a STAR: 3–4 occurrences of a two-atom "
-        "pattern sharing their first atom, partners numbered in random order, only a fraction of them replaced; ~30 % of the calls pass axis hints axisp1/axisp2) given in a shifted frame (first atom not at the origin); replacement patterns derived from them "
+        "pattern sharing their first atom, partners numbered in random order, only a fraction of them replaced; ~30 % of the calls pass axis hints axisp1/axisp2 (half of those also an orientation point), "
+        "spelled as plain, negative or numpy integers; 2 in 7 cells are spelled with two rows exchanged (left-handed) or one row negated, atoms wrapped into the cell as spelled) given in a shifted frame (first atom not at the origin); replacement patterns derived from them "
         "(all search atoms kept + atoms sticking 3–9 Å out, some kept + new, all new incl. one exactly on the first "
         "search atom, one element substituted, one atom re-placed 0.02–0.09 Å away with the same element, atoms on the pattern axis), every replacement atom tagged by a unique "
         "charge; replace_all on/off; each case is run a second time with search and replacement pattern moved jointly "
-        "by a random rigid motion. Non-trivial = at least one match replaced, at least one atom inserted, and at least "
+        "by a random rigid motion. [TAGGED stream, known finding collinear-search-pattern-offaxis-replacement] the "
+        "identification case (C–O pair, replacement C–O + off-axis S) and 12/150 generated cases with one-atom, two-atom and "
+        "collinear search patterns and off-axis replacement atoms, compared under a joint motion INCLUDING the atoms whose place "
+        "the match does not determine; attributed to the finding only if the search pattern is degenerate, every differing atom "
+        "is an inserted copy of an off-axis replacement atom, and all other atoms agree to 1e-6. Non-trivial = at least one match replaced, at least one atom inserted, and at least "
         "one inserted atom had to be wrapped (its unwrapped image lies outside the cell).")
 
 TIE_TOL = 1e-7
@@ -92,7 +97,7 @@ def independent_find(case, scale=1.0):
     _random.seed(case["seed"])
     np.random.seed(case["seed"] % (2 ** 32))
     with core.quiet():
-        h = list(case.get("hints") or [None, None, None])
+        h = spelled_hints(case) if "p" in case and isinstance(case.get("p"), dict) else (None, None, None)
         found = mm.find_pattern_in_structure(s, p, atol=case["atol"] * scale, axisp1_idx=h[0], axisp2_idx=h[1], opoint_idx=h[2])
     return sorted(tuple(sorted(int(i) for i in t)) for t in found)
 
@@ -255,6 +260,111 @@ def oracle_joint(case, out, out2, motion):
     return multiset_equal_mod_lattice(view(out["ok"]), view(out2["ok"]), cell, tol)
 
 
+# ------------------------------------------------------------------ KNOWN FINDING: collinear search pattern, off-axis replacement
+
+FINDING_OFFAXIS = "collinear-search-pattern-offaxis-replacement"
+
+
+def pattern_is_degenerate(P):
+    """fewer than three atoms, or all atoms on one line"""
+    P = np.asarray(P, dtype=float)
+    if len(P) < 3:
+        return True
+    i, j = max(((a, b) for a in range(len(P)) for b in range(len(P))), key=lambda ab: np.linalg.norm(P[ab[0]] - P[ab[1]]))
+    u = P[j] - P[i]
+    if np.linalg.norm(u) < 1e-12:
+        return True
+    return all(np.linalg.norm(np.cross(x - P[i], u)) / np.linalg.norm(u) < 1e-9 for x in P)
+
+
+def oracle_joint_all_atoms(case, out, out2, motion):
+    """the joint-motion clause taken literally, INCLUDING the replacement atoms whose placement the match does not
+    determine. Returns None (agrees) | ("finding", text, observed) | ("violation", text)."""
+    base = oracle_joint(case, out, out2, motion)
+    if base == "skip":
+        return None
+    if base:
+        return ("violation", base)            # determined atoms already disagree: the ordinary failure
+    if "ok" not in out:
+        return None
+    cell = cell_of(case["s"])
+
+    def view(res):
+        el, ps = elements(res), positions(res)
+        return [(el[i], ps[i], fl(a["q"])) for i, a in enumerate(res["atoms"])]
+    va, vb = view(out["ok"]), view(out2["ok"])
+    cinv = np.linalg.inv(cell)
+    free = list(range(len(vb)))
+    lonely = []
+    for e, x, q in va:
+        hit = next((k for k in free if vb[k][0] == e and lattice_dist(x, vb[k][1], cell, cinv) <= 1e-6), None)
+        if hit is None:
+            lonely.append((e, x, q))
+        else:
+            free.remove(hit)
+    if not lonely and not free:
+        return None
+    P, Rp = positions(case["p"]), positions(case["r"])
+    pure = motion["q"] == [0, 0, 0, 1]
+    det = G.determined(case["info"]["pattern"], P, Rp, pure)
+    undet_tags = {case["tags"][k] for k in range(len(det)) if not det[k]}
+    differing = [q for _, _, q in lonely] + [vb[k][2] for k in free]
+    # exactly the finding: degenerate search pattern, every differing atom is an inserted copy of a replacement atom that lies
+    # OFF the pattern's axis (resp. off the single site), everything else — bystanders, matched, on-axis atoms — agrees
+    if pattern_is_degenerate(P) and differing and all(q in undet_tags for q in differing):
+        ks = sorted({case["tags"].index(q) for q in differing})
+        return ("finding", "joint rigid motion of both patterns moves the inserted copies of the off-axis replacement atom(s) %s "
+                "(search pattern %s has %d atom(s), all on one line): their place is not determined by the match"
+                % (ks, case["info"]["pattern"], len(P)),
+                {"differing_replacement_atoms": ks, "determined_atoms_agree": True,
+                 "example": [[e, [round(float(v), 4) for v in x]] for e, x, _ in lonely[:2]]})
+    return ("violation", "joint rigid motion changes atoms whose place the match determines: charges %s" % differing[:4])
+
+
+def canonical_offaxis_case():
+    """the identification snippet of the finding: C–O pair along z, replacement C–O + S off the axis"""
+    cell = [[12.0, 0, 0], [0, 12.0, 0], [0, 0, 12.0]]
+    sj = findlib.struct_json(["C", "O", "H"], [[5.0, 5, 5], [5.0, 5, 6.25], [9.0, 9, 9]], cell, charges=[1 / 16, 2 / 16, 3 / 16])
+    pj = G.pattern_atoms_json(["C", "O"], [[0.0, 0, 0], [1.25, 0, 0]])
+    rj = G.pattern_atoms_json(["C", "O", "S"], [[0.0, 0, 0], [1.25, 0, 0], [0.5, 1.5, 0]], charges=[100.5, 101.5, 102.5])
+    return {"op": "c05", "hints": [None, None, None], "int_rp": False, "s": sj, "p": pj, "r": rj, "atol": 0.05,
+            "replace_all": False, "seed": 0, "shared": [0, 1, None], "tags": [100.5, 101.5, 102.5],
+            "motion": {"q": [1, -2, 1, 3], "t": [1.5, -2.0, 0.25]}, "offaxis_stream": True,
+            "info": {"cell": "ortho", "pattern": "pair", "boundary": "None", "rp": "keep_all+offaxis", "copies": 1, "decoys": [],
+                     "atol": 0.05, "distorted": "none", "exact180": False, "tilt_over_atol": [], "flip": None,
+                     "bent_decoy_h_over_atol": None}}
+
+
+def offaxis_case(rng, tier):
+    pname = rng.choice(["single", "pair", "pair@y", "pair@z", "collinear3", "collinear_asym", "collinear_asym@y", "collinear_asym@z"])
+    case = G.make_case(rng, tier, pname=pname, rp_kind=rng.choice(["keep_all+far", "all_new", "keep_some+new"]),
+                       hints=(None, None, None), distort=False, exact=False, tilt=False, flip=False, bent=False, int_rp=False)
+    case["motion"] = G.rand_motion(rng)
+    case["offaxis_stream"] = True
+    return case
+
+
+def check_offaxis(ctx, case):
+    out = run_real(case)
+    bad, stats = oracle_c05(case, out)
+    ctx.case(case, nontrivial=(bad is None and stats["matches"] > 0 and stats["inserted"] > 0))
+    ctx.count("offaxis-stream")
+    if bad:
+        ctx.fail(bad, case, observed={"err": out.get("err")}, required="C05 image / in-cell oracle", tags=["c05"])
+        return
+    out2 = run_real(case, case["motion"])
+    r = oracle_joint_all_atoms(case, out, out2, case["motion"])
+    if r is None:
+        ctx.count("offaxis-stream:agrees")
+    elif r[0] == "finding":
+        ctx.count("offaxis-stream:pose-dependent")
+        ctx.fail(r[1], case, observed=r[2], required="same multiset of (element, position mod lattice) for ALL atoms",
+                 tags=["c05", "joint", FINDING_OFFAXIS])
+    else:
+        ctx.fail("joint rigid motion of both patterns changes the result: " + r[1], case, observed=None,
+                 required="same multiset of (element, position mod lattice) within 1e-6", tags=["c05", "joint"])
+
+
 # ------------------------------------------------------------------ tie: real end-to-end vs. model
 
 def tie(ctx, inp, op, out, model):
@@ -312,6 +422,18 @@ def atoms_with_int_positions(j):
                      atom_type_masses=[float(Fraction(m)) for m in ty["mass"]])
 
 
+def spelled_hints(case):
+    """the axis / orientation hints as the case spells them: plain ints, negative indices, or numpy integers"""
+    h = list(case.get("hints") or [None, None, None])
+    n = len(case["p"]["atoms"])
+    sp = case.get("hint_spelling", "plain")
+    if sp == "negative":
+        h = [None if v is None else v - n for v in h]
+    elif sp == "numpy":
+        h = [None if v is None else np.int64(v) for v in h]
+    return tuple(h)
+
+
 def run_real(case, motion=None):
     pj, rj = case["p"], case["r"]
     if motion is not None:
@@ -322,7 +444,7 @@ def run_real(case, motion=None):
         core.atoms_from_json = lambda j: atoms_with_int_positions(j) if j is rj else real_from_json(j)
     try:
         return findlib.run_replace(case["s"], pj, rj, atol=case["atol"], replace_all=case["replace_all"], seed=case["seed"],
-                                   fraction=case.get("fraction", 1.0), hints=tuple(case.get("hints") or (None, None, None)))
+                                   fraction=case.get("fraction", 1.0), hints=spelled_hints(case))
     except (ValueError, OverflowError) as e:      # the result cannot be canonicalised: NaN / inf coordinates
         return {"err": "error:non-finite-result (%s)" % (str(e)[:60],), "used": None, "inputs_unchanged": True}
     finally:
@@ -343,6 +465,10 @@ def check_case(ctx, case, with_joint=True):
     ctx.count("tilted:%s" % bool(info.get("tilt_over_atol")))
     ctx.count("int-typed-replacement:%s" % bool(case.get("int_rp")))
     ctx.count("star:%s" % bool(info.get("star")))
+    ctx.count("cell-spelling:%s" % (info.get("cellvar") or "standard"))
+    ctx.count("unwrapped:%s" % bool(info.get("unwrapped")))
+    ctx.count("hint-spelling:%s" % case.get("hint_spelling", "plain"))
+    ctx.count("opoint-hint:%s" % ((case.get("hints") or [None] * 3)[2] is not None))
     ctx.count("flip:%s" % (str(info.get("flip")).split("(")[0]))
     ctx.count("bent-decoy:%s" % (info.get("bent_decoy_h_over_atol") is not None))
     ctx.count("distorted:%s" % info.get("distorted", "none"))
@@ -407,6 +533,10 @@ def run(ctx, oracle_only=False):
             ops.append(op)
             outs.append(out)
             inps.append(case)
+    # tagged stream (known finding): the joint-motion clause taken literally for degenerate search patterns
+    check_offaxis(ctx, canonical_offaxis_case())
+    for _ in range(ctx.n(12, 150)):
+        check_offaxis(ctx, offaxis_case(ctx.rng, ctx.tier))
     if oracle_only or not ops:
         return
     models = []
@@ -446,6 +576,8 @@ def replay(ctx, rec):
         return False
     if motion is not None:
         out2 = run_real(case, motion)
+        if case.get("offaxis_stream"):
+            return oracle_joint_all_atoms(case, out, out2, motion) is None
         jb = oracle_joint(case, out, out2, motion)
         if jb and jb != "skip":
             return False
